@@ -15,6 +15,7 @@ use std::process::{Command, Stdio};
 use syn::visit_mut::{self, VisitMut};
 use syn::*;
 
+mod regexgen;
 mod rewrite;
 use rewrite::*;
 
@@ -379,6 +380,35 @@ fn main() {
             let (a, b) = r.split_once("=>").unwrap_or_else(|| die("bad //@rename"));
             file_renames.entry(f.trim().to_string()).or_default().push((norm(a), b.trim().to_string()));
             i += 1;
+        } else if let Some(rest) = t.strip_prefix("//@mapcall ") {
+            // R8 for methods of std types: `recv.m(args)` -> `f(recv, args)` (a prelude function carrying the assumed contract)
+            let (a, b) = rest.split_once("=>").unwrap_or_else(|| die("bad //@mapcall"));
+            method_maps.push((format!("call:{}", a.trim()), b.trim().to_string()));
+            i += 1;
+        } else if let Some(rest) = t.strip_prefix("//@regex ") {
+            let (parts, _opts) = parse_kv(rest);
+            if parts.len() != 2 {
+                die("bad //@regex");
+            }
+            let f = files.entry(parts[0].clone()).or_insert_with(|| load(&repo, &parts[0]));
+            let mut lit: Option<String> = None;
+            for it in &f.items {
+                if let Item::Static(st) = it {
+                    if st.ident == parts[1].as_str() {
+                        if let Expr::Macro(m) = &*st.expr {
+                            if let Ok(l) = m.mac.parse_body::<LitStr>() {
+                                lit = Some(l.value());
+                            }
+                        }
+                    }
+                }
+            }
+            let lit = lit.unwrap_or_else(|| die(&format!("LOST ANCHOR: regex static {} not found / not a lazy_regex! literal", parts[1])));
+            let txt = regexgen::generate(&parts[1], &lit).unwrap_or_else(|e| die(&format!("regex {}: {e}", parts[1])));
+            out.push(txt.trim_end());
+            *rewrite_counts.entry("R9".into()).or_default() += 1;
+            report_items.push(serde_json::json!({"file": parts[0], "item": parts[1], "regex": lit}));
+            i += 1;
         } else if let Some(rest) = t.strip_prefix("//@mapmethod ") {
             let (a, b) = rest.split_once("=>").unwrap_or_else(|| die("bad //@mapmethod"));
             method_maps.push((a.trim().to_string(), b.trim().to_string()));
@@ -459,6 +489,7 @@ fn main() {
                 }
                 Item::Const(s) => {
                     s.attrs.clear();
+                    s.vis = parse_quote!(pub);
                     if let Some((_, to)) = fmaps.iter().find(|(f, _)| *f == s.ident.to_string()) {
                         s.ident = Ident::new(to, s.ident.span());
                     }
@@ -468,6 +499,12 @@ fn main() {
                 _ => {}
             }
             rw.visit_item_mut(&mut it);
+            if let Item::Const(c) = &mut it {
+                // the elided lifetime of a reference in a const item is 'static
+                if let Type::Reference(r) = &mut *c.ty {
+                    r.lifetime = Some(parse_quote!('static));
+                }
+            }
             if !rw.unsupported.is_empty() {
                 die(&format!("{} :: {}: {}", parts[0], name, rw.unsupported.join("; ")));
             }
